@@ -179,6 +179,10 @@ class ExprMixin:
     def ev(self, node, st):
         if isinstance(node, ast.Constant):
             return node.value
+        if isinstance(node, (ast.Name, ast.Attribute)):
+            opv = self.operator_value(node, st)
+            if opv is not None:
+                return opv
         if isinstance(node, ast.Name):
             return self.lookup_name(node.id, st, node)
         if isinstance(node, (ast.List, ast.Tuple)):
@@ -242,6 +246,9 @@ class ExprMixin:
             return self.binop(node, a, b, st)
         if isinstance(node, ast.IfExp):
             return self.ifexp(node, st)
+        if isinstance(node, ast.Lambda):
+            self.check_no_rebinding(node, 'lambda')
+            return FuncValue(node, st.env, 'lambda')
         if isinstance(node, ast.Call):
             return self.call(node, st)
         if isinstance(node, ast.Attribute):
@@ -289,6 +296,18 @@ class ExprMixin:
         for k, v in saved.items():
             st.env[k] = v
         return None if st.dead else out
+
+    def check_no_rebinding(self, fnode, name):
+        """a nested function / lambda sees its free variables as they are now: refuse when the enclosing function rebinds one
+        of them after this point"""
+        if not self.def_stack:
+            return
+        free = {n.id for n in ast.walk(fnode) if isinstance(n, ast.Name) and isinstance(n.ctx, ast.Load)}
+        inner = {id(m) for m in ast.walk(fnode)}
+        for n in ast.walk(self.def_stack[-1]):
+            if isinstance(n, ast.Name) and isinstance(n.ctx, ast.Store) and n.id in free and id(n) not in inner \
+                    and (n.lineno, n.col_offset) > (fnode.lineno, fnode.col_offset):
+                raise Unsupported('{} is rebound after the nested function {} that reads it was defined'.format(n.id, name))
 
     def truth_value(self, test, st):
         """a test used as a value: only when it is decided"""
